@@ -2,5 +2,7 @@ CONSTANTS
   RaiseOnV6 = FALSE
   RaiseOnUnicode = FALSE
   BlockInverted = FALSE
+  CaseSensitive = FALSE
+  StripOnValidate = FALSE
 SPECIFICATION Spec
 CHECK_DEADLOCK FALSE
